@@ -20,11 +20,23 @@ LEVEL_TEXT = ("Proof: four children partition their parent (half-open, west/sout
               "spatial_counts(cartesian=True)): entry (j,i) is the value of the cell containing the lattice point (i-th "
               "distinct west edge, j-th distinct south edge); on prefix-free grids every cell's value sits at its own "
               "south-west corner; it raises exactly when a lattice point lies in no cell and never on a grid that covers "
-              "the domain (proved for every from_catalog and single-resolution grid).")
-LEVEL_NOTE = ("Web-Mercator latitude is abstract (any strictly decreasing function); mercantile is trusted to compute tile "
-              "edges as a function of the dyadic coordinate only (shared-edge bit identity re-checked every run). The model "
-              "receives a point's latitude as the tile row it falls in at the deepest level, found by float comparisons "
-              "against mercantile's own edge latitudes.")
+              "the domain (proved for every from_catalog and single-resolution grid). Round 3: the latitude is no longer "
+              "abstract - mercantile's degrees(atan(sinh(pi(1-2y)))) is instantiated over the reals and PROVED strictly "
+              "decreasing, within (-90,90), odd about the equator, with sin(lat)=tanh(pi(1-2y)); every real (lon,lat) query is "
+              "reduced to the dyadic test and to any rational representative of its deepest cell (representative_sound, "
+              "locate_real); geographical_area_from_bounds is modelled code-shaped (both branches) and proved equal to the "
+              "spherical closed form, so the cells of every from_catalog / single-resolution grid sum to 4 pi R^2 sin(latmax); "
+              "longitude edges and the argument of the latitude chain are exact in binary64 for every zoom <= 40 by theorem; "
+              "arbitrary user key lists: the first listed ancestor-or-self of the point's deepest key answers, cells listed "
+              "after an ancestor are dead; get_bbox of every covering grid is the whole domain; save_quadtree/from_quadkeys "
+              "text round trip; origins located in their own cells.")
+LEVEL_NOTE = ("Theorems about the latitude are over the reals; the float evaluation of pi*x, sinh, atan, degrees by libm is not "
+              "modelled beyond determinism (the float latitude of an edge is proved to depend on the dyadic coordinate only; "
+              "strict monotonicity of the float edge table is re-checked every run; the Lean Float transcription of the formula "
+              "is compared bit for bit with mercantile's bounds on every run). The decimal value 85.0511287798066 of "
+              "degrees(atan(sinh(pi))) is compared numerically (1e-12), not proved. The model receives a point's latitude as "
+              "the tile row it falls in at the deepest level, found by float comparisons against mercantile's own edge "
+              "latitudes (soundness of any representative of that row: theorem representative_sound).")
 DESIGN_REF = "DESIGN.md §4 C17"
 
 THEOREMS = ["Quadtree.geo_membership", "Quadtree.lon_bounds_exact", "Quadtree.root_domain", "Quadtree.children_partition", "Quadtree.counts_add",
@@ -42,7 +54,17 @@ THEOREMS = ["Quadtree.geo_membership", "Quadtree.lon_bounds_exact", "Quadtree.ro
             # Cartesian view (Properties/C17_Cartesian.lean)
             "Quadtree.cartesian_axes", "Quadtree.cartesian_entry", "Quadtree.cartesian_ok_iff",
             "Quadtree.cartesian_error_no_cell", "Quadtree.cartesian_places_cells", "Quadtree.cartesian_total_of_cover",
-            "Quadtree.cartesian_total_from_catalog", "Quadtree.cartesian_total_single_resolution"]
+            "Quadtree.cartesian_total_from_catalog", "Quadtree.cartesian_total_single_resolution",
+            # real Mercator geometry, code-shaped area, float exactness by theorem (Properties/C17_Mercator.lean)
+            "Quadtree.mercator_strictAnti", "Quadtree.mercator_range_and_limits", "Quadtree.mercator_geo_membership",
+            "Quadtree.mercator_every_latitude", "Quadtree.mercator_membership_real", "Quadtree.real_test_on_rational_points",
+            "Quadtree.representative_sound", "Quadtree.locate_real", "Quadtree.geo_area_formula",
+            "Quadtree.tile_area_code_shaped", "Quadtree.tile_area_pos", "Quadtree.area_total_from_catalog",
+            "Quadtree.area_total_single_resolution", "Quadtree.lon_bounds_exact_all", "Quadtree.lat_arg_exact",
+            "Quadtree.lat_arg_depends_on_unit_coordinate", "Quadtree.quadkeys_text_roundtrip", "Quadtree.origin_own_cell",
+            # arbitrary key sets, bounding box (Properties/C17_Keysets.lean)
+            "Quadtree.inTile_iff_prefix_keyOf", "Quadtree.locate_first_prefix", "Quadtree.shadowed_cell_never_returned",
+            "Quadtree.bbox_of_cover", "Quadtree.bbox_from_catalog", "Quadtree.bbox_single_resolution"]
 TRUSTED = ["Lean 4.33 kernel", "axioms: propext, Classical.choice, Quot.sound at most",
            "mercantile 1.2.1: quadkey_to_tile is the bit interleaving modelled by tileX/tileY; bounds().west/east equal "
            "-180+360*X/2^z exactly (checked on every tile of every generated grid); the latitude of a tile edge depends on "
@@ -51,6 +73,9 @@ TRUSTED = ["Lean 4.33 kernel", "axioms: propext, Classical.choice, Quot.sound at
            "the latitude of a point enters the model as the deepest-level row it falls in, computed by the harness with "
            "float comparisons against mercantile.bounds edges (the same comparisons the library makes)",
            "numpy comparison / logical_and / where semantics", "Float tanh/π for the model-side area (compared at 1e-9)",
+           "libm cos / sinh / atan behind Lean's Float and numpy / math (code-shaped Float area compared at 1e-9 relative plus a "
+           "cancellation-aware absolute term; Mercator bounds compared exactly in longitude, 1e-12 in latitude, bit-exact count "
+           "reported)", "numpy.savetxt / genfromtxt line handling (one key per line)",
            "harness/c17.py generators and comparison; driver parsing (Proto.lean, Drive/C17.lean)"]
 RULE = ("grids: from_single_resolution(z) z=1..7 (8 in thorough), from_catalog over kind in {uniform, clustered, "
         "boundary} x threshold in {0,1,5,50} x zoom 1..9, random prefix-free (and a few nested) key sets through "
@@ -61,7 +86,12 @@ RULE = ("grids: from_single_resolution(z) z=1..7 (8 in thorough), from_catalog o
         "(#distinct west edges x #distinct south edges x #cells) <= 3e6 (2e7 thorough) incl. gridded forecasts on it; "
         "ordered lookup sequences on one region object (a point inside tile A, then points exactly on A's east / north "
         "edge and corners, as repeated scalar calls and as list / ndarray calls, forwards, reversed, shuffled): the cell of "
-        "a point must be its per-point containment whatever was looked up before")
+        "a point must be its per-point containment whatever was looked up before; on every grid additionally origins() / "
+        "midpoints() / to_dict() / get_location_of / get_bbox / save_quadtree -> genfromtxt -> from_quadkeys and the Mercator "
+        "bounds + cell areas recomputed by the code-shaped Lean Float functions (40 sampled cells); key sets containing the "
+        "root key '' and constructors called with magnitudes= / name=; geographical_area_from_bounds on 400 (4000) ordered "
+        "bounds: degenerate (equal longitudes / latitudes), polar, 1e-6 degree cells, Mercator tiles of zoom 1..14, full "
+        "longitude span")
 
 R_KM = 6371.0
 LATMAX = 85.0511287798066
@@ -158,20 +188,27 @@ def _build(kind, params):
     """build the region from a replayable description"""
     from csep.core import regions
     from csep.core.catalogs import CSEPCatalog
+    kw = {}
+    if params.get("mags"):
+        kw = dict(magnitudes=numpy.array([4.0, 5.0, 6.5]), name="c17-named")
     if kind == "single":
-        r = regions.QuadtreeGrid2D.from_single_resolution(params["zoom"])
+        r = regions.QuadtreeGrid2D.from_single_resolution(params["zoom"], **kw)
     elif kind == "catalog":
         ev = [(float.fromhex(a), float.fromhex(b)) for a, b in params["events"]]
         cat = CSEPCatalog(data=[(str(i), 1000 * i, la, lo, 5.0, 4.0) for i, (lo, la) in enumerate(ev)],
                           compute_stats=False)
-        r = regions.QuadtreeGrid2D.from_catalog(cat, params["threshold"], zoom=params["zoom"])
+        r = regions.QuadtreeGrid2D.from_catalog(cat, params["threshold"], zoom=params["zoom"], **kw)
     elif kind == "quadkeys":
-        r = regions.QuadtreeGrid2D.from_quadkeys(list(params["keys"]))
+        r = regions.QuadtreeGrid2D.from_quadkeys(list(params["keys"]), **kw)
     elif kind == "california":
         r = regions.california_quadtree_region()
     else:
         raise ValueError(kind)
-    return Grid(kind, params, r, list(r.quadkeys))
+    g = Grid(kind, params, r, list(r.quadkeys))
+    # binding of magnitudes / name is not part of C17 (C03 uses region.magnitudes): recorded, never a verdict
+    g.bound = None if not kw else bool(r.name == "c17-named" and r.magnitudes is not None
+                                       and numpy.array_equal(numpy.asarray(r.magnitudes), kw["magnitudes"]))
+    return g
 
 
 def _case(g, **kw):
@@ -263,7 +300,7 @@ def check_queries(run, drv, pend, g, pts, partition_expected, prefix_free, tag):
         if dk is None:
             exp = None
         else:
-            cands = [kidx[dk[:L]] for L in range(1, g.D + 1) if dk[:L] in kidx]
+            cands = [kidx[dk[:L]] for L in range(0, g.D + 1) if dk[:L] in kidx]
             if not prefix_free:
                 # first listed among all cells (duplicates included) that contain the point
                 cands = [i for i, k in enumerate(keys) if dk.startswith(k)]
@@ -515,6 +552,189 @@ def check_cartesian(run, drv, pend, g, partition_expected, prefix_free, limit):
     pend.append(("cartesian", g, case, drv.ask(f"c17_cartesian {ks}"), (impl, xs, ys)))
 
 
+N_BIG = 3000
+
+
+def _sample_idx(rng, n, m):
+    if rng is None:                       # replay: every cell (capped)
+        return list(range(min(n, 4000)))
+    return list(range(n)) if n <= m else sorted(rng.sample(range(n), m))
+
+
+def check_api(run, drv, pend, g, rng, prefix_free, indices=None):
+    """the remaining public surface of a quadtree region, tied to the model: origins / midpoints / to_dict,
+    get_location_of, get_bbox, save_quadtree -> genfromtxt -> from_quadkeys, the Mercator bounds and the cell area
+    through the code-shaped geographical_area_from_bounds"""
+    from csep.core import regions
+    r, keys = g.region, g.keys
+    n = len(keys)
+    if n == 0:
+        return
+    b = numpy.asarray(r.bounds, dtype=float)
+    E, _ = edges(g.D)
+    case = _case(g, check="api")
+    ks = ",".join(keys)
+    if g.bound is not None:
+        run.count("magnitudes-and-name-bound" if g.bound else "magnitudes-or-name-NOT-bound(not judged)")
+    # --- origins(), to_dict(): the (west, south) corner of every cell, in cell order
+    org = numpy.asarray(r.origins(), dtype=float)
+    if org.shape != (n, 2) or not numpy.array_equal(org, b[:, :2]):
+        run.oracle_failure(case, "origins() is not the (west, south) corner of every cell")
+        return
+    d = r.to_dict()
+    if [(p["lon"], p["lat"]) for p in d["polygons"]] != [(float(b[i, 0]), float(b[i, 1])) for i in range(n)]:
+        run.oracle_failure(case, "to_dict()['polygons'] is not the list of (west, south) corners in cell order")
+    big = n > N_BIG          # huge grids (e.g. a refinement that does not stop): sampled cells only, fewer model ops
+    idxs = _sample_idx(rng, n, 40)
+    if big:
+        pend.append(("origins", g, case, drv.ask(f"c17_origins {','.join(keys[i] for i in idxs)}"), org[idxs]))
+        mid = {i: [float(v) for v in r.polygons[i].centroid()] for i in idxs}
+    else:
+        pend.append(("origins", g, case, drv.ask(f"c17_origins {ks}"), org))
+        mid = numpy.asarray(r.midpoints(), dtype=float)
+    # --- every origin and every midpoint is located in its own cell (prefix-free grids; theorem origin_own_cell)
+    own = []
+    for i in idxs:
+        mx, my = float(mid[i][0]), float(mid[i][1])
+        if not (b[i, 0] <= mx < b[i, 2] and b[i, 1] <= my < b[i, 3]):
+            run.oracle_failure(dict(case, cell=keys[i]), f"midpoint {mx!r},{my!r} of cell {keys[i]} lies outside its bounds")
+            continue
+        for (x, y, what) in ((float(org[i, 0]), float(org[i, 1]), "origin"), (mx, my, "midpoint")):
+            got = r.get_index_of(x, y)
+            got = None if isinstance(got, numpy.ndarray) and got.size == 0 else int(got)
+            exp = _expected_cell(b, x, y)
+            if got != exp or (prefix_free and got != i):
+                run.oracle_failure(dict(case, cell=keys[i], point=[hexs(x), hexs(y)]),
+                                   f"{what} of cell {i} ({keys[i]}) is located in cell {got}, containment gives {exp}")
+            own.append(((x, y), got))
+    units = [to_unit(x, y, g.D) for (x, y), _ in own]
+    pend.append(("locate", g, dict(case, op="c17_locate", what="origins+midpoints"),
+                 drv.ask(f"c17_locate {ks} {pts_arg(units)}"), [v for _, v in own]))
+    # --- get_location_of: the polygons of the given indices, IndexError beyond the last cell
+    idx = list(indices) if indices else ([rng.randrange(n) for _ in range(min(n, 6))] if rng else list(range(min(n, 6))))
+    idx = [i for i in idx if i < n] or [0]
+    try:
+        polys = r.get_location_of(idx)
+        impl = [tuple(float(v) for v in q.origin) for q in polys]
+    except Exception as ex:
+        impl = "E:" + type(ex).__name__
+    if impl != [(float(b[i, 0]), float(b[i, 1])) for i in idx]:
+        run.oracle_failure(dict(case, indices=idx), f"get_location_of({idx}) does not return the polygons of these cells: {impl}")
+    else:
+        for q, i in zip(polys, idx):
+            pts = numpy.asarray(q.points, dtype=float)
+            if not (numpy.all(pts[:, 0] >= b[i, 0]) and numpy.all(pts[:, 0] <= b[i, 2])
+                    and numpy.all(pts[:, 1] >= b[i, 1]) and numpy.all(pts[:, 1] <= b[i, 3])):
+                run.oracle_failure(dict(case, cell=keys[i]), "polygon vertices lie outside the cell bounds")
+    if not big:
+        pend.append(("locationof", g, dict(case, indices=idx), drv.ask(f"c17_locationof {ks} {','.join(map(str, idx))}"),
+                     [keys[i] for i in idx]))
+    try:
+        r.get_location_of([n])
+        beyond = "ok"
+    except IndexError:
+        beyond = "E"
+    except Exception as ex:
+        beyond = type(ex).__name__
+    if not big:
+        pend.append(("locationof", g, dict(case, indices=[n]), drv.ask(f"c17_locationof {ks} {n}"), beyond))
+    # --- get_bbox
+    bb = [float(v) for v in r.get_bbox()]
+    if bb != [float(b[:, 0].min()), float(b[:, 2].max()), float(b[:, 1].min()), float(b[:, 3].max())]:
+        run.oracle_failure(dict(case, bbox=[hexs(v) for v in bb]), "get_bbox is not (min west, max east, min south, max north)")
+    if n <= 20000:
+        pend.append(("bbox", g, case, drv.ask(f"c17_bbox {ks}"), bb))
+    # --- Mercator bounds and cell areas from the model's own Float arithmetic (code-shaped functions)
+    sub = idxs[:24]
+    sk = ",".join(keys[i] for i in sub)
+    area = numpy.asarray(r.get_cell_area(), dtype=float)
+    pend.append(("mercbounds", g, case, drv.ask(f"c17_mercbounds {sk}"), b[sub]))
+    pend.append(("cellarea", g, case, drv.ask(f"c17_cellarea {sk}"), area[sub]))
+    # --- save_quadtree -> text lines -> genfromtxt(dtype=str) -> from_quadkeys (the path california_quadtree_region takes)
+    if all(len(k) > 0 for k in keys) and n <= 20000:
+        import tempfile
+        tmpd = tempfile.TemporaryDirectory(prefix="c17_")
+        path = os.path.join(tmpd.name, "qk.txt")
+        r.save_quadtree(path)
+        text = open(path).read()
+        lines = text.split("\n")
+        if lines and lines[-1] == "":
+            lines.pop()
+        if lines != keys:
+            run.oracle_failure(case, "save_quadtree does not write one quadkey per line in cell order")
+        if n <= 400:
+            pend.append(("savekeys", g, case, drv.ask(f"c17_savekeys {ks}"), lines))
+            pend.append(("loadkeys", g, case, drv.ask(f"c17_loadkeys {'|'.join(lines)}"), keys))
+        if n >= 2:     # a one-line file is read back as a 0-d array (see notes: observation, outside C17)
+            qk = numpy.genfromtxt(path, delimiter=",", dtype="str")
+            r2 = regions.QuadtreeGrid2D.from_quadkeys(qk)
+            if [str(k) for k in r2.quadkeys] != keys or not numpy.array_equal(numpy.asarray(r2.bounds, dtype=float), b):
+                run.oracle_failure(case, "the grid re-loaded from its saved quadkeys differs (keys or bounds)")
+            else:
+                for i in idxs[:12]:
+                    x, y = float(mid[i][0]), float(mid[i][1])
+                    a1, a2 = r.get_index_of(x, y), r2.get_index_of(x, y)
+                    if numpy.size(a1) != numpy.size(a2) or (numpy.size(a1) and int(a1) != int(a2)):
+                        run.oracle_failure(dict(case, point=[hexs(x), hexs(y)]), "re-loaded grid locates a point differently")
+        tmpd.cleanup()
+        run.count("api:save-load")
+    run.count("api")
+    run.case(case if n <= 64 else dict(kind=g.kind, check="api", ncells=n),
+             ("api", g.kind, _pkey(g)) if (len(set(len(k) for k in keys)) > 1 or n >= 16) else None)
+
+
+R2PI = 2 * math.pi * R_KM ** 2
+
+
+def geo_tol(exp, lon1, lon2):
+    """cancellation-aware tolerance: each spherical cap 2π(1−cos) carries a few ulps of 2π absolute error"""
+    return 1e-9 * abs(exp) + 64 * 2.220446049250313e-16 * math.pi * R_KM ** 2 * abs(lon2 - lon1) / 360 + 1e-300
+
+
+def check_geoarea(run, drv, pend, rng, n, args=None):
+    """geographical_area_from_bounds on arbitrary bounds (degenerate, reversed, polar, tiny, tile-shaped) against the
+    closed form 2πR²(sin lat2 − sin lat1)(lon2 − lon1)/360 (oracle) and the code-shaped Lean function (model)"""
+    from csep.core import regions
+    import struct
+    bits = lambda x: str(struct.unpack("<Q", struct.pack("<d", float(x)))[0])
+    todo = [args] if args else []
+    while not args and len(todo) < n:
+        k = rng.random()
+        # (lon1, lat1) is the origin and (lon2, lat2) the top-right corner (docstring): ordered bounds only — what the
+        # function does with reversed corners (a negative area today) is not part of the property
+        lon1, lon2 = sorted((rng.uniform(-180, 180), rng.uniform(-180, 180)))
+        lat1, lat2 = sorted((rng.uniform(-90, 90), rng.uniform(-90, 90)))
+        if k < 0.12:
+            lon2 = lon1
+        elif k < 0.24:
+            lat2 = lat1
+        elif k < 0.36:
+            lat1, lat2 = rng.choice([(-90.0, 90.0), (0.0, 90.0), (-90.0, 0.0), (-LATMAX, LATMAX), (lat1, 90.0)])
+            lat1, lat2 = min(lat1, lat2), max(lat1, lat2)
+        elif k < 0.5:
+            lon2, lat2 = lon1 + rng.choice([1e-6, 1e-3, 0.1]), min(90.0, lat1 + rng.choice([1e-6, 1e-3, 0.1]))
+        elif k < 0.7:
+            z = rng.randint(1, 14)
+            X, Y = rng.randrange(1 << z), rng.randrange(1 << z)
+            import mercantile
+            t = mercantile.bounds(X, Y, z)
+            lon1, lat1, lon2, lat2 = t.west, t.south, t.east, t.north
+        elif k < 0.8:
+            lon1, lon2 = -180.0, 180.0
+        todo.append([float(lon1), float(lat1), float(lon2), float(lat2)])
+    for a in todo:
+        lon1, lat1, lon2, lat2 = a
+        case = dict(kind="geoarea", check="geoarea", args=[hexs(v) for v in a])
+        got = float(regions.geographical_area_from_bounds(lon1, lat1, lon2, lat2))
+        exp = R2PI * (math.sin(math.radians(lat2)) - math.sin(math.radians(lat1))) * (lon2 - lon1) / 360
+        degenerate = lon1 == lon2 or lat1 == lat2
+        run.count("geoarea:degenerate" if degenerate else "geoarea")
+        if not abs(got - exp) <= geo_tol(exp, lon1, lon2):
+            run.oracle_failure(case, f"geographical_area_from_bounds{tuple(a)} = {got!r}, spherical closed form {exp!r}")
+        run.case(case, ("geoarea",) + tuple(case["args"]) if (degenerate or abs(lat2 - lat1) < 0.01) else None)
+        pend.append(("geoarea", None, case, drv.ask("c17_geoarea " + " ".join(bits(v) for v in a)), (got, a)))
+
+
 def flush(run, drv, pend):
     out = drv.run()
     for what, g, case, i, impl in pend:
@@ -555,6 +775,60 @@ def flush(run, drv, pend):
                     break
             if not ok:
                 run.mismatch(dict(case, op="c17_bounds"), [hexs(v) for v in impl[:4].ravel()], rows[:4])
+        elif what == "origins":
+            rows = [] if o == "-" else o.split(",")
+            E, _ = edges(g.D)
+            ok = len(rows) == len(impl)
+            for j, row in enumerate(rows if ok else []):
+                xw, ys = (Fraction(t) for t in row.split(":"))
+                if Fraction(float(impl[j, 0])) != xw * 360 - 180 or float(impl[j, 1]) != E[int(ys * (1 << g.D))]:
+                    ok = False
+                    break
+            if not ok:
+                run.mismatch(dict(case, op="c17_origins"), [hexs(v) for v in impl[:3].ravel()], rows[:3])
+        elif what == "locationof":
+            model = "E" if o == "E" else ([] if o == "-" else o.split(","))
+            if model != impl:
+                run.mismatch(dict(case, op="c17_locationof"), impl, model)
+        elif what == "bbox":
+            E, _ = edges(g.D)
+            if o == "E":
+                run.mismatch(dict(case, op="c17_bbox"), impl, o)
+            else:
+                a, b_, c, d = (Fraction(t) for t in o.split(":"))
+                n_ = 1 << g.D
+                if [Fraction(impl[0]), Fraction(impl[1])] != [a * 360 - 180, b_ * 360 - 180] or \
+                        [impl[2], impl[3]] != [E[int(c * n_)], E[int(d * n_)]]:
+                    run.mismatch(dict(case, op="c17_bbox"), [hexs(v) for v in impl], o)
+        elif what == "mercbounds":
+            rows = [] if o == "-" else o.split(",")
+            ok = len(rows) == len(impl)
+            exact = 0
+            for j, row in enumerate(rows if ok else []):
+                w, s_, e, n_ = (float(numpy.array([int(t)], dtype=numpy.uint64).view(numpy.float64)[0]) for t in row.split(":"))
+                if w != impl[j, 0] or e != impl[j, 2] or abs(s_ - impl[j, 1]) > 1e-12 or abs(n_ - impl[j, 3]) > 1e-12:
+                    ok = False
+                    break
+                exact += int(s_ == impl[j, 1] and n_ == impl[j, 3])
+            run.extra["mercbounds_rows"] = run.extra.get("mercbounds_rows", 0) + len(rows)
+            run.extra["mercbounds_bitexact"] = run.extra.get("mercbounds_bitexact", 0) + exact
+            if not ok:
+                run.mismatch(dict(case, op="c17_mercbounds"), [hexs(v) for v in impl[:2].ravel()], rows[:2])
+        elif what == "cellarea":
+            vals = [] if o == "-" else [float(numpy.array([int(t)], dtype=numpy.uint64).view(numpy.float64)[0]) for t in o.split(",")]
+            if not (len(vals) == len(impl) and all(abs(a - c) <= 1e-9 * abs(c) for a, c in zip(vals, impl))):
+                run.mismatch(dict(case, op="c17_cellarea"), [hexs(v) for v in impl[:6]], [hexs(v) for v in vals[:6]])
+        elif what == "savekeys":
+            if o.split("|") != impl:
+                run.mismatch(dict(case, op="c17_savekeys"), impl[:20], o[:200])
+        elif what == "loadkeys":
+            if ([] if o == "-" else o.split(",")) != impl:
+                run.mismatch(dict(case, op="c17_loadkeys"), impl[:20], o[:200])
+        elif what == "geoarea":
+            got, a = impl
+            val = float(numpy.array([int(o)], dtype=numpy.uint64).view(numpy.float64)[0])
+            if not abs(val - got) <= geo_tol(got, a[0], a[2]):
+                run.mismatch(dict(case, op="c17_geoarea"), hexs(got), hexs(val))
         elif what == "area":
             vals = [] if o == "-" else [numpy.array([int(t)], dtype=numpy.uint64).view(numpy.float64)[0] for t in o.split(",")]
             ok = len(vals) == len(impl) and all(abs(a - c) <= 1e-9 * abs(c) for a, c in zip(vals, impl))
@@ -687,6 +961,7 @@ def run_grid(run, drv, pend, g, rng, budget, partition_expected, prefix_free=Tru
     check_structure(run, drv, pend, g, partition_expected)
     check_order(run, drv, pend, g, rng, 12 if budget <= 300 else 24)
     check_cartesian(run, drv, pend, g, partition_expected, prefix_free, cart_limit)
+    check_api(run, drv, pend, g, rng, prefix_free)
     pts = gen_queries(rng, g, budget)
     # batches keep replays small
     B = 64
@@ -707,7 +982,7 @@ def run(run, rng, tier):
                 replay(run, json.load(open(os.path.join(cdir, f))), _drv=(drv, pend))
     # 1. single resolution, all tiles
     for z in range(1, 9 if thorough else 8):
-        g = _build("single", dict(zoom=z))
+        g = _build("single", dict(zoom=z, mags=True) if z % 3 == 2 else dict(zoom=z))
         run.count("grid-single")
         # exact expectation of the key list: all 4^z keys of length z (their order is not part of the property)
         if len(g.keys) != 4 ** z or len(set(g.keys)) != 4 ** z or any(len(k) != z or set(k) - set('0123') for k in g.keys):
@@ -727,7 +1002,8 @@ def run(run, rng, tier):
         n = rng.choice([0, 1, 2, 7, 40, 150, 400] + ([1500] if thorough else [])) if kind != "boundary" \
             else rng.choice([3, 12, 60, 200] + ([800] if thorough else []))
         ev = gen_events(rng, kind, n, zoom)
-        g = _build("catalog", dict(threshold=thr, zoom=zoom, events=[[hexs(a), hexs(b)] for a, b in ev], gen=kind))
+        g = _build("catalog", dict(threshold=thr, zoom=zoom, events=[[hexs(a), hexs(b)] for a, b in ev], gen=kind,
+                                   **(dict(mags=True) if rng.random() < 0.25 else {})))
         run.count("grid-catalog-" + kind)
         check_refinement(run, drv, pend, g)
         run_grid(run, drv, pend, g, rng, 500 if thorough else 120, True, cart_limit=CL)
@@ -740,11 +1016,16 @@ def run(run, rng, tier):
     for i in range(200 if thorough else 16):
         nested = i % 5 == 4
         keys = gen_keyset(rng, nested)
-        g = _build("quadkeys", dict(keys=keys, nested=nested))
+        if nested and i % 10 == 9:
+            # the root key '' (mercantile: the whole square) among its descendants: first listed cell wins
+            keys.insert(rng.randrange(1, len(keys) + 1), "")
+        g = _build("quadkeys", dict(keys=keys, nested=nested, **(dict(mags=True) if i % 4 == 1 else {})))
         run.count("grid-quadkeys-nested" if nested else "grid-quadkeys")
         sk = sorted(set(keys))
         pf = len(set(keys)) == len(keys) and not any(sk[j + 1].startswith(sk[j]) for j in range(len(sk) - 1))
         run_grid(run, drv, pend, g, rng, 300 if thorough else 150, False, prefix_free=pf, cart_limit=CL)
+    # 3b. geographical_area_from_bounds on arbitrary bounds
+    check_geoarea(run, drv, pend, rng, 4000 if thorough else 400)
     # 4. the shipped California grid
     try:
         g = _build("california", {})
@@ -761,6 +1042,11 @@ def run(run, rng, tier):
 def replay(run, payload, _drv=None):
     case = payload.get("case", payload)
     drv, pend = _drv if _drv else (Driver(), [])
+    if case.get("kind") == "geoarea":
+        check_geoarea(run, drv, pend, None, 1, args=[float.fromhex(v) for v in case["args"]])
+        if not _drv:
+            flush(run, drv, pend)
+        return
     g = _build(case["kind"], case["params"])
     partition = case["kind"] in ("single", "catalog")
     keys = g.keys
@@ -769,6 +1055,8 @@ def replay(run, payload, _drv=None):
     check_structure(run, drv, pend, g, partition)
     if case.get("check") == "cartesian":
         check_cartesian(run, drv, pend, g, partition, pf, 2e7)
+    if case.get("check") == "api":
+        check_api(run, drv, pend, g, None, pf, indices=case.get("indices"))
     if case.get("check") == "order" and "points" in case:
         check_sequence(run, drv, pend, g, [tuple(float.fromhex(v) for v in p) for p in case["points"]], case.get("mode", "scalar"),
                        "replay")
